@@ -897,3 +897,48 @@ Example bounded_seek_stale_refuted :
   (* the repaired Seek leaves the iterator invalid *)
   b_check eng_it (Some [1]) (Some [6]) (fst (b_seek_gen eng_it (Some [1]) (Some [6]) true [9] h1)) = false.
 Proof. vm_compute. repeat split. Qed.
+
+(* ------------------------------------------------------------------------------------ *)
+(* Part I: a scan that runs while other clients write                                      *)
+(* ------------------------------------------------------------------------------------ *)
+
+(* An engine iterator is created on a reachable state; its calls are interleaved with steps
+   of writers that leave the keys of W alone (see [legal]: any change of the iterator's own
+   sources that keeps them sorted and leaves the entries of every other key in place — inserts
+   into the memtables it iterates, seen through the snapshot filter or not; flushes and
+   compactions do not touch the iterator's source list at all). The surfaced keys are strictly
+   ascending, and when the scan is through every key of W of the history has been surfaced with
+   its latest effect. *)
+Theorem eng_concurrent_scan : forall c ops (W : bytes -> Prop) steps,
+  lost_log (run c ops) = false ->
+  let srcs := eng_sources (run c ops) in
+  legal src_iter src_ok s_cur W (hier_first src_iter (hier_new srcs)) steps ->
+  let res := cscan src_iter srcs steps in
+  kstrict (snd res) /\
+  (h_valid (fst res) = false ->
+   forall k v, W k -> latest (acked (init c) ops) k = Some v -> In (k, v) (snd res)).
+Proof.
+  intros c ops W steps Hl srcs Hlegal res. destruct (run_facts c ops Hl) as (h & I & Eh & Hok).
+  pose proof (conc_scan _ src_iter src_ok s_all s_cur src_lawful W srcs steps
+                (eng_sources_ok _ Hok) Hlegal) as (A & B).
+  split; [exact A|]. intros V k v Wk La. apply B; [exact V|exact Wk|].
+  unfold srcs. rewrite (eng_first_val _ h k I Hl Hok), Eh. exact La.
+Qed.
+
+(* a scan over a memtable [1;3;5] and a table [2;4]; after the first Next a writer inserts key
+   [0] (behind the iterator: never seen) and key [4;4] (ahead: seen); the keys 1..5 nobody
+   wrote all appear, in order *)
+Example concurrent_scan_ex :
+  let m := mkSrc KMem [([1], Some [10]); ([3], Some [30]); ([5], Some [50])] [] in
+  let t := mkSrc KSst [([2], Some [20]); ([4], Some [40])] [] in
+  let h0 := hier_first src_iter (hier_new [m; t]) in
+  let h1 := fst (hier_next src_iter h0) in
+  let m1 := match h_srcs h1 with a :: _ => a | [] => m end in
+  let t1 := match h_srcs h1 with _ :: b :: _ => b | _ => t end in
+  let m2 := src_write 0 ([0], Some [0]) m1 in
+  let m3 := src_write 3 ([4; 4], Some [44]) m2 in
+  let steps := [CNext; CWrite [0] [m2; t1]; CWrite [4; 4] [m3; t1]; CNext; CNext; CNext; CNext; CNext; CNext] in
+  snd (cscan src_iter [m; t] steps) =
+    [([1], Some [10]); ([2], Some [20]); ([3], Some [30]); ([4], Some [40]); ([4; 4], Some [44]); ([5], Some [50])] /\
+  h_valid (fst (cscan src_iter [m; t] steps)) = false.
+Proof. vm_compute. split; reflexivity. Qed.
